@@ -119,6 +119,7 @@ type RegCall struct {
 	Name  string `json:"n"`
 	Ref   int    `json:"r,omitempty"`
 	Raw   int    `json:"raw,omitempty"`
+	Proxy bool   `json:"px,omitempty"` // the reference is a wrapped version (a definition that stands for another)
 	Err   bool   `json:"e,omitempty"`
 	Bool  bool   `json:"b,omitempty"`
 	Depth int    `json:"d,omitempty"`
